@@ -35,7 +35,7 @@ fn laws<T: Packet + std::fmt::Debug + PartialEq>(b: &[u8]) -> String {
         Err(e) => {
             if f.as_ref().err() != Some(e) { bad.push("decode_full error".into()); }
             if m.as_ref().err() != Some(e) { bad.push("decode_mut error".into()); }
-            if !(s.len() == b.len() && s.as_ptr() == b.as_ptr()) { bad.push("decode_mut moved on failure".into()); }
+            if !(s.len() == b.len() && (b.is_empty() || s.as_ptr() == b.as_ptr())) { bad.push("decode_mut moved on failure".into()); }
         }
     }
     if bad.is_empty() { "LAWS ok".to_string() } else { format!("LAWS violated: {}", bad.join("; ")) }
